@@ -69,9 +69,9 @@ def x0(ns):
     add("obj:DC", lambda: ns["DC"](a=1, b="x"))
     add("obj:NT", lambda: ns["NT"](a=1, b="x"))
     add("obj:datetime", lambda: datetime.datetime(2020, 1, 1, tzinfo=datetime.timezone.utc))
-    add("obj:time", lambda: datetime.time(1, 2, 3, tzinfo=datetime.timezone.utc))
-    add("obj:date", lambda: datetime.date(2020, 1, 2))
     add("obj:array", lambda: __import__("array").array("i", [1, 2, 3]))  # exports a buffer, is not text
+    add("obj:datetime-subclass", lambda: ns["DTsub"](2020, 1, 2, 3, 4, 5, tzinfo=datetime.timezone.utc))
+    add("obj:date-subclass", lambda: ns["DateSub"](2020, 1, 2))
     add("obj:date", lambda: datetime.date(2020, 1, 1))
     add("obj:time", lambda: datetime.time(1, 2, 3, tzinfo=datetime.timezone.utc))
     add("obj:timedelta", lambda: datetime.timedelta(seconds=5))
